@@ -12,10 +12,4 @@ NOTES = ("All checks are generated-input searches (property-based testing, enume
 
 NA = {}
 
-CHECKS = {
-    "C01": {
-        "technique": "property-based testing (rapid): round-trip, determinism and tamper metamorphic relations over all 21 KEM schemes; exhaustive single-bit-flip enumeration in the thorough tier; implicit-rejection secret recomputed with x/crypto SHAKE256",
-        "text": "Generated-input search over (scheme, key seed, encapsulation seed, alteration) with edge-biased seeds: decapsulation inverts encapsulation, derivation/encapsulation/decapsulation are pure functions, sizes match, marshal round trips behave identically, and no altered ciphertext decapsulates to the honest secret unless only non-canonical bits of a raw X25519/X448 share changed; implicit-rejection secrets of ML-KEM/Kyber are compared with J(z||c) computed independently. Exploration is the right level: the domain (all seeds x all alterations) is astronomically large and the oracle is exact per case.",
-        "note": "trusts x/crypto/sha3 and math/big for the reference values; 'bound' classification of raw X-share bytes follows RFC 7748 canonicalisation computed with math/big; never establishes absence",
-    },
-}
+from props import MANIFEST_TEXT as CHECKS
